@@ -23,17 +23,28 @@ pub struct Material {
 }
 
 fn make_material(name: &'static str, serial: u64, not_before_days: i64, not_after_days: i64) -> Material {
+    make_material_with(name, serial, not_before_days, not_after_days, None)
+}
+
+/// `key_of`: re-use the key of an existing material (a renewal that keeps the key)
+fn make_material_with(name: &'static str, serial: u64, not_before_days: i64, not_after_days: i64, key_of: Option<&Material>) -> Material {
     let mut params = rcgen::CertificateParams::new(vec!["localhost".to_string()]).expect("params");
     let now = time::OffsetDateTime::now_utc();
     params.not_before = now + time::Duration::days(not_before_days);
     params.not_after = now + time::Duration::days(not_after_days);
     params.serial_number = Some(rcgen::SerialNumber::from(serial));
-    let key = rcgen::KeyPair::generate().expect("key");
+    let key = match key_of {
+        Some(m) => rcgen::KeyPair::from_pem(&m.key_pem).expect("key from pem"),
+        None => rcgen::KeyPair::generate().expect("key"),
+    };
     let cert = params.self_signed(&key).expect("cert");
     Material {
         name,
         cert_pem: cert.pem(),
-        key_pem: key.serialize_pem(),
+        key_pem: match key_of {
+            Some(m) => m.key_pem.clone(),
+            None => key.serialize_pem(),
+        },
         der: cert.der().to_vec(),
         serial_hex: format!("{:x}", serial),
         expired: not_after_days < 0,
@@ -255,13 +266,15 @@ async fn run_history(dir: &Path, mats: &[Material], h: &[Op], mid: Option<(&'sta
                 Ok(()) => {
                     // candidates: the pair on disk before, or (with a mid-reload write) after
                     let mut cands: Vec<usize> = vec![];
-                    if let (Some(c), Some(k)) = (cert_before, key_before) && c == k { cands.push(c); }
-                    if mid_applied.is_some() && let (Some(c), Some(k)) = (cert_after, key_after) && c == k { cands.push(c); }
+                    // a certificate and a key form a pair when the key is the certificate's (materials may share a key)
+                    let pair = |c: usize, k: usize| mats[c].key_pem == mats[k].key_pem;
+                    if let (Some(c), Some(k)) = (cert_before, key_before) && pair(c, k) { cands.push(c); }
+                    if mid_applied.is_some() && let (Some(c), Some(k)) = (cert_after, key_after) && pair(c, k) { cands.push(c); }
                     // mixed states during a mid-reload write: cert from one side, key from the other
                     if mid_applied.is_some() {
                         for c in [cert_before, cert_after].into_iter().flatten() {
                             for k in [key_before, key_after].into_iter().flatten() {
-                                if c == k && !cands.contains(&c) { cands.push(c); }
+                                if pair(c, k) && !cands.contains(&c) { cands.push(c); }
                             }
                         }
                     }
@@ -269,7 +282,9 @@ async fn run_history(dir: &Path, mats: &[Material], h: &[Op], mid: Option<(&'sta
                     match served {
                         None => v.push(("C18:unknown-certificate-served".into(), what.clone())),
                         Some(x) => {
-                            if !cands.contains(&x) {
+                            if !cands.contains(&x) && now.leaf == prev.leaf && !cands.is_empty() {
+                                v.push(("C18:successful-reload-not-used".into(), format!("{what}: reload() succeeded with {} / key of {} on disk, but new handshakes are still served {}", cert_before.map(|i| mats[i].name).unwrap_or("?"), key_before.map(|i| mats[i].name).unwrap_or("?"), mats[x].name)));
+                            } else if !cands.contains(&x) {
                                 v.push(("C18:reload-accepted-inconsistent-disk-state".into(), format!("{what}: reload() succeeded and now serves {} although cert/key on disk were {:?}/{:?} (after: {:?}/{:?})", mats[x].name, cert_before.map(|i| mats[i].name), key_before.map(|i| mats[i].name), cert_after.map(|i| mats[i].name), key_after.map(|i| mats[i].name))));
                             }
                             if mats[x].expired {
@@ -322,16 +337,22 @@ pub fn run(tier: Tier) -> i32 {
     let mut rep = Report::new("C18", tier, "fault_enumeration");
     let thorough = tier.is_thorough();
     rep.assumptions = vec![
-        "real files in a scratch directory, rcgen-made pairs A (initial), B, C and D (expired 400 days ago); reload() is called directly (the file watcher only decides when it is called)".into(),
+        "real files in a scratch directory, rcgen-made pairs A (initial), B, C, D (expired 400 days ago), A2 (A's key and serial, new validity) and B2 (new key under B's serial); reload() is called directly (the file watcher only decides when it is called)".into(),
         "which certificates count as expired is not fixed by the property (day granularity is an observation, not a violation); D is far beyond any granularity".into(),
         "mid-reload disk changes are injected through the H10 synchronous points between the reload's file reads".into(),
     ];
     install_sync_hook();
     let mats = vec![make_material("A", 0xA1, -1, 365), make_material("B", 0xB2, -1, 365), make_material("C", 0xC3, -1, 200), make_material("D-expired", 0xD4, -800, -400)];
+    // materials that share attributes with others, as renewals do: A2 keeps A's key and serial (new validity),
+    // B2 is a new key under B's serial and subject
+    let mut mats = mats;
+    let a2 = make_material_with("A2-renewed-same-key-and-serial", 0xA1, -1, 500, Some(&mats[0]));
+    mats.push(a2);
+    mats.push(make_material("B2-rekeyed-same-serial", 0xB2, -1, 365));
     let base = PathBuf::from(format!("{}/scratch/c18-{}", verif_dir(), std::process::id()));
     let _ = std::fs::create_dir_all(&base);
     // ---- alphabet and histories
-    let disk_ops = vec![Op::WriteCert(1), Op::WriteKey(1), Op::WriteCert(2), Op::WriteKey(2), Op::WriteCert(3), Op::WriteKey(3), Op::TruncCert(500), Op::TruncKey(500), Op::GarbageCert, Op::GarbageKey, Op::DeleteCert, Op::DeleteKey];
+    let disk_ops = vec![Op::WriteCert(1), Op::WriteKey(1), Op::WriteCert(2), Op::WriteKey(2), Op::WriteCert(3), Op::WriteKey(3), Op::WriteCert(4), Op::WriteKey(0), Op::WriteCert(5), Op::WriteKey(5), Op::TruncCert(500), Op::TruncKey(500), Op::GarbageCert, Op::GarbageKey, Op::DeleteCert, Op::DeleteKey];
     let mut alphabet = disk_ops.clone();
     alphabet.push(Op::Reload);
     let depth = if thorough { 4 } else { 3 };
@@ -403,5 +424,5 @@ pub fn run(tier: Tier) -> i32 {
     }
     let _ = std::fs::remove_dir_all(&base);
     rep.sections.insert("jobs".into(), json!({"histories": n_jobs, "depth": depth, "alphabet": alphabet.iter().map(|o| op_str(o, &mats)).collect::<Vec<_>>(), "truncation_prefixes": clen + klen + 2, "sync_points": points}));
-    rep.finish("BX: every history of depth d (+ a final reload) over {write cert/key of pairs B, C, expired D (each file alone), truncate cert/key, garbage, delete, reload}; every byte prefix of cert and key; a disk operation landing at each of 5 points inside a reload for 6 pre-states; after every step a real TLS handshake against the current acceptor, get_cert_info / count / last_reload compared with the previous snapshot; non-trivial = distinct history")
+    rep.finish("BX: every history of depth d (+ a final reload) over {write cert/key of pairs B, C, expired D, A2 (same key and serial as A), B2 (same serial as B) (each file alone), truncate cert/key, garbage, delete, reload}; every byte prefix of cert and key; a disk operation landing at each of 5 points inside a reload for 6 pre-states; after every step a real TLS handshake against the current acceptor, get_cert_info / count / last_reload compared with the previous snapshot; non-trivial = distinct history")
 }
